@@ -472,9 +472,10 @@ class Lexer():
                     i = len(m.group(0))
                     break
 
-        for c in s[:i]:
-            # (b'\n'[0] == 10)
-            if c == b'\n'[0]:
+        for k, c in enumerate(s[:i]):
+            # (b'\n'[0] == 10, b'\r'[0] == 13)
+            # A line ends with "\n", "\r\n" or a lone "\r".
+            if c == b'\n'[0] or (c == b'\r'[0] and s[k+1:k+2] != b'\n'):
                 self._cur_lineno += 1
                 self._cur_charno = 0
             else:
